@@ -58,6 +58,21 @@ pub fn run(args: &Args, rep: &mut Report) {
             }
         }
     }
+    // (a') structured families: nested parallels completing in every order, histories at every level
+    for d in 0..args.scale(12, 200) {
+        if crate::report::should_stop() {
+            break;
+        }
+        let dm = dms[d % dms.len()];
+        let (doc, paths) = if d % 2 == 0 { crate::corpus::done_tree(&mut rng, dm, d) } else { crate::corpus::history_tree(&mut rng, dm, d) };
+        if let Ok(f) = Flat::from_doc(&doc) {
+            for (i, p) in paths.iter().take(3).enumerate() {
+                if w.run_one(&doc, &f, p, i == 0) {
+                    w.rep.nontrivial_key(&distinct_key(&doc, p));
+                }
+            }
+        }
+    }
     w.rep.count("documents_with_complete_reachable_graph", exhaustive_docs);
     w.rep.count("documents_graph_enumerated", n_docs as u64);
     // (b) seeded random documents, random walks, every first path run twice
